@@ -150,7 +150,8 @@ claim('C13',
       'spec/mech/CheckPartials.tla: what check_partials/check_totals must report (analytic and approximated matrices, error figures, the FULL '
       'set of uncovered nonzeros) for affine integer components; 8 laws checked by TLC; every exported scenario (storage kinds dense, rows/cols, '
       'diagonal, coo, csr, csc x declared pattern incl. under-declared in several columns x correct/wrong values) is executed through '
-      'Problem.check_partials (fd, exact-step fd, cs) and a subset through check_totals.',
+      'Problem.check_partials (fd, exact-step fd, cs) and a subset through check_totals; stage 3: LISTS of steps and directional checks on a '
+      'quadratic component whose forward differences are exact (StepLaw, NoAlias, CorrectStepError): every step\'s report is compared.',
       'Affine integer components (FD/CS quotients exact); complete for shapes below 9 cells, seed-rotating sample of 3x3 / 3x4.',
       'TLA+/TLC scenario enumeration with exact oracle + replay into check_partials/check_totals', '5.8, 6/C13')
 
@@ -158,7 +159,10 @@ claim('C15',
       'spec/mech/Interp.tla (exact rationals): all strictly increasing 3-5 point integer grids in -4..4 (1-D), pairs of representative grids of '
       'every sign pattern (2-D), 3-D in thorough; multilinear / tensor-quadratic / tensor-cubic tables; queries at nodes, cell interior, '
       'boundaries and just outside; TLC checks ErrorIff, NodeLaw, DerivLaw, HatLaw and exports the exact outcome; each scenario is executed on '
-      'InterpND for every method that reproduces the class, fixed vs general variants, vectorised vs single, and through MetaModelStructuredComp.',
+      'InterpND for every method that reproduces the class, fixed vs general variants, vectorised vs single, and through MetaModelStructuredComp '
+      'and MetaModelSemiStructuredComp (full-grid data); InterpHist.tla: all short histories of value / value+derivative / gradient queries at two '
+      'points (and a nudged one) on ONE interpolant object, each call compared with a fresh object and the exact value; akima reproduces quadratics '
+      'on evenly spaced grids (AkQuadLaw).',
       'A method is only held to the polynomial class it provably reproduces; tolerance 1e-9 abs + 1e-9 rel + 1e-11 of the largest table entry.',
       'TLA+ exact-rational oracle + TLC scenario enumeration + replay into InterpND / MetaModelStructuredComp', '5.8, 6/C15')
 
@@ -166,7 +170,9 @@ claim('C16',
       'Interior scenarios of spec/mech/Interp.tla with the exact gradient of the table polynomial and the slinear hat weights (DerivLaw, HatLaw '
       'as TLC invariants); each is executed on InterpND (derivatives, gradient(), training gradients), MetaModelStructuredComp partials, '
       'evaluate_spline and SplineComp: d/dx equals the exact gradient for reproducing methods, slinear d/dT equals the hat weights, '
-      'value = w.T with sum(w) = 1 wherever w is returned.',
+      'value = w.T with sum(w) = 1 wherever w is returned; query histories on one object with the gradient-cache discipline (InterpHist.tla: '
+      'ReturnsRequested, CacheSound; the two faulty disciplines are refuted); exact dual-number derivatives of akima with smoothing (delta_x) w.r.t. x '
+      'and every table value, bound to evaluate_spline, SplineComp, InterpND and training gradients.',
       'PARTIAL: for akima/cubic/bsplines on tables they do not reproduce only relations between observed numbers are checked '
       '(difference quotient, linearity/homogeneity in the table values).',
       'TLA+ exact-rational derivative oracle + TLC enumeration + replay; difference-quotient and linearity relations elsewhere', '6/C16, 7')
